@@ -14,6 +14,8 @@ def printOut : Out → String
   | .msgv v => if v then "M1" else "M0"
   | .listv v n => "L" ++ (if v then "1" else "0") ++ ":" ++ toString n
   | .mapv v n => "P" ++ (if v then "1" else "0") ++ ":" ++ toString n
+  | .glist n => "L:" ++ toString n
+  | .gmap n => "P:" ++ toString n
   | .which none => "-"
   | .which (some j) => toString j
   | .fields js => "[" ++ ",".intercalate (js.map toString) ++ "]"
@@ -48,6 +50,7 @@ def parseOp : (fuel : Nat) → List String → Option Op
     | "mv" :: j :: k :: rest => do let j ← j.toNat?; let k ← argKey k; let op ← parseOp fuel rest; pure (.mv j k op)
     | ["has", j] => j.toNat?.map (fun j => .r (.has j))
     | ["get", j] => j.toNat?.map (fun j => .r (.get j))
+    | ["getter", j] => j.toNat?.map (fun j => .r (.getter j))
     | ["which", g] => g.toNat?.map (fun g => .r (.which g))
     | ["range"] => some (.r .range)
     | ["getu"] => some (.r .getu)
